@@ -306,6 +306,9 @@ def run(tier, seed):
         r = contexp.bfs(pool, "c07", cfg, "h5", 1 if q else 2, budget_s=budget * 0.7, t0=t0, start=c06.starts(cfg)["rich"])
         violations += r.pop("violations")
         fam["h5-from-rich"] = r
+        r = contexp.bfs(pool, "c07", cfg, "h5", 1 if q else 2, budget_s=budget * 0.7, t0=t0, start=c06.starts(cfg)["descendants"])
+        violations += r.pop("violations")
+        fam["h5-from-descendants"] = r
         # ---- environment upgrade: old env writes every history of depth <= k (attach/mk ops only) ...
         k = 2 if q else 3
         G, GD, E, H, GF = cfg["paths"]
